@@ -10,6 +10,9 @@
       converter without an error and without a panic: the converters' own operator/type switches
       (the "second line of defence") never fire on a typed AST, so acceptance is decided by the parser
       alone -- which is target independent by construction (`parse_does_not_see_the_target`);
+    * `typed_programs_are_translated_batch`, `acceptance_is_target_independent`: the same for the Batch converter
+      (additionally needs the placement rules: its construct stacks are accessed without checks), hence on
+      every typed and well-placed AST both targets produce a script;
     * `ill_typed_operator_is_rejected_*`: the converse for the second line of defence: a bool or slice
       operand of an arithmetic operator, an unknown comparison for the type, an unknown unary or
       logical operator make the bash converter fail (no script);
@@ -18,12 +21,27 @@
   table of the check and the AST correspondence with the parser model.
 -/
 import TshVerif.Lemmas.BashTotal
+import TshVerif.Lemmas.BatchTotal
 namespace Tsh.C06
 open Tsh Tsh.Tr Tsh.Bash
 
 /-- **Every typed program is translated** (bash target): a script, no error, no panic. -/
 theorem typed_programs_are_translated (p : Program) (ht : typedProgram p = true) : ∃ ls, compile p = .ok ls :=
   compile_total p ht
+
+/-- **Every typed, well-placed program is translated** (Batch target) -/
+theorem typed_programs_are_translated_batch (p : Program) (ht : typedProgram p = true) (hp : placedStmts {} p = true) :
+    ∃ ls, Batch.compile p = .ok ls :=
+  Batch.compile_total p ht hp
+
+/-- **Acceptance does not depend on the target**: on every typed and well-placed AST BOTH emitters return a script.
+    (`placedStmts {}` is strict: `break` only inside a loop.  The one program shape the real parser accepts outside
+    it -- `break` in a `switch` that is not in a loop -- is the known finding break-in-switch, where Batch fails.) -/
+theorem acceptance_is_target_independent (p : Program) (ht : typedProgram p = true) (hp : placedStmts {} p = true) :
+    (∃ sh, Bash.emitBash p = .ok sh) ∧ (∃ bat, Batch.emitBatch p = .ok bat) := by
+  obtain ⟨l1, h1⟩ := Bash.compile_total p ht
+  obtain ⟨l2, h2⟩ := Batch.compile_total p ht hp
+  exact ⟨⟨_, by unfold Bash.emitBash; rw [h1]⟩, ⟨_, by unfold Batch.emitBatch; rw [h2]⟩⟩
 
 /-- typed programs are well-formed: all structural theorems (C01, C16) apply to them -/
 theorem typed_programs_are_wellformed (p : Program) (ht : typedProgram p = true) : wfStmts p = true :=
